@@ -22,8 +22,11 @@ Definition write (d : list (N * N * msg)) (a l : N) (m : msg) :=
   (a, l, m) :: filter (fun '(b, k, _) => negb (overlaps a l b k)) d.
 Definition scribble (d : list (N * N * msg)) (a l : N) :=      (* a torn copy: destroys what it overlaps *)
   filter (fun '(b, k, _) => negb (overlaps a l b k)) d.
-Fixpoint read (d : list (N * N * msg)) (a l : N) : option msg :=
-  match d with [] => None | (b, k, m) :: d' => if ((b =? a) && (k =? l))%N then Some m else read d' a l end.
+Fixpoint read_ne (d : list (N * N * msg)) (a l : N) : option msg :=
+  match d with [] => None | (b, k, m) :: d' => if ((b =? a) && (k =? l))%N then Some m else read_ne d' a l end.
+(* reading zero bytes gives the empty message (content id 0) whatever the page holds *)
+Definition read (d : list (N * N * msg)) (a l : N) : option msg :=
+  if (l =? 0)%N then Some 0 else read_ne d a l.
 Fixpoint lookup (s : nat) (ix : list (nat * (N * N))) : option (N * N) :=
   match ix with [] => None | (t, e) :: ix' => if t =? s then Some e else lookup s ix' end.
 
@@ -71,9 +74,9 @@ Definition alog (lg : list msg) (o : op) : list msg :=
   | _ => lg
   end.
 
-(* messages are non-empty and fit a page *)
+(* messages fit a page; the empty message has content id 0 *)
 Definition ok_op (o : op) : Prop :=
-  match o with Put _ l | PutCrash _ l _ => (1 <= l <= P)%N | Reopen => True end.
+  match o with Put m l | PutCrash m l _ => (l <= P)%N /\ (l = 0%N -> m = 0) | Reopen => True end.
 
 Fixpoint run (s : q) (lg : list msg) (ops : list op) : q * list msg :=
   match ops with [] => (s, lg) | o :: ops' => run (step s o) (alog lg o) ops' end.
